@@ -64,9 +64,12 @@ ARec* arec_find(void* p)
 template<class T>
 struct CountingAlloc {
     using value_type = T;
+    // a data member makes this a *stateful* allocator (is_always_equal is false): code paths that treat stateful
+    // allocators differently are exercised
+    int pool_id = 1;
     CountingAlloc() = default;
     template<class U>
-    CountingAlloc(const CountingAlloc<U>&) noexcept
+    CountingAlloc(const CountingAlloc<U>& o) noexcept: pool_id(o.pool_id)
     {
     }
     T* allocate(size_t n)
@@ -112,14 +115,14 @@ struct CountingAlloc {
         r->constructed = 0;
     }
     template<class U>
-    bool operator==(const CountingAlloc<U>&) const
+    bool operator==(const CountingAlloc<U>& o) const
     {
-        return true;
+        return pool_id == o.pool_id;
     }
     template<class U>
-    bool operator!=(const CountingAlloc<U>&) const
+    bool operator!=(const CountingAlloc<U>& o) const
     {
-        return false;
+        return pool_id != o.pool_id;
     }
 };
 
@@ -137,8 +140,8 @@ using List = gmlc::libguarded::rcu_list<Elem, std::mutex, CountingAlloc<Elem>>;
 #elif defined(MODE_C13)
 using Elem = Tracked;
 using List = gmlc::libguarded::rcu_list<Elem, std::mutex, CountingAlloc<Elem>>;
-#elif defined(ALLOC_FAULTS)
-// C05 programs with an allocator whose allocations may fail (fault enumeration)
+#elif defined(ALLOC_FAULTS) || defined(STATEFUL_ALLOC)
+// C05 programs with an allocator whose allocations may fail (fault enumeration); C14 programs over a stateful allocator
 using Elem = Val;
 using List = gmlc::libguarded::rcu_list<Elem, std::mutex, CountingAlloc<Elem>>;
 #else
@@ -940,6 +943,10 @@ void make_items(const Options& o, std::vector<Item>& items)
     // the list starts empty
     add(0, {early_reader(), pusher({{PUSH_F, 10}}), eraser(0)}, 2, 3);
     add(0, {early_reader(), pusher({{PUSH_B, 10}}), eraser(0), reaper(1)}, 2, 3);
+    // two writers on neighbouring elements / on the tail: nothing may be cut off (never destroyed) or logged twice
+    add(2, {eraser(0), eraser(1), reaper(1)}, 2, 3);
+    add(2, {pusher({{PUSH_B, 10}}), eraser(1), reaper(1)}, 2, 3);
+    add(3, {eraser(1), eraser(2), pusher({{EMPL_B, 10}})}, 2, 3);
     // scale: long runs of released records behind a handle that is still held (thresholds in the log walk)
     add(5, {pauser(1), erase_all(5), reaper(2)}, 1, 2);
     add(2, {pauser(1), reaper(7)}, 1, 2);
@@ -1010,7 +1017,11 @@ int main(int argc, char** argv)
 #elif defined(MODE_C13)
     return run_main(argc, argv, "C13", "C13", make_items);
 #elif defined(MODE_C14)
+#if defined(STATEFUL_ALLOC)
+    return run_main(argc, argv, "C14", "C14_rcu_alloc", make_items);
+#else
     return run_main(argc, argv, "C14", "C14_rcu", make_items);
+#endif
 #elif defined(ALLOC_FAULTS)
     return run_main(argc, argv, "C05", "C05_allocfaults", make_items);
 #else
